@@ -216,12 +216,12 @@ class Graph:
 
 
 # ------------------------------------------------------------------ one case
-FILE_VARIANTS = ['full', 'full', 'absent', 'colonly', 'rowonly', 'short', 'crlf', 'shortcrlf', 'full']
+FILE_VARIANTS = ['full', 'full', 'absent', 'colonly', 'rowonly', 'short', 'crlf', 'shortcrlf', 'full', 'full', 'absent', 'short', 'crlf', 'nonewline']
 
 
 def make_files(rng, m, stub, variant):
     """returns (col bytes|None, row bytes|None) after writing/removing the files"""
-    col_names = [m.vars[j]['name'] for j in m.perm]
+    col_names = [m.vars[j]['name'] for j in m.perm] + [dv['name'] for dv in getattr(m, 'dvars', [])]
     row_names = [m.cons[i]['name'] for i in m.con_order] + [l['name'] for l in m.lcons] + [m.objs[i]['name'] for i in m.obj_order]
     eol = '\r\n' if 'crlf' in variant else '\n'
     if variant.startswith('short'):
@@ -229,6 +229,8 @@ def make_files(rng, m, stub, variant):
         row_names = row_names[:rng.below(len(row_names) + 1)]
     col = ''.join(n + eol for n in col_names).encode('latin-1')
     row = ''.join(n + eol for n in row_names).encode('latin-1')
+    if variant == 'nonewline' and row:
+        row = row[:-1]                     # last line of .row not terminated: ReadError "missing newline"
     if variant == 'absent':
         col = row = None
     elif variant == 'colonly':
@@ -298,6 +300,8 @@ def gen_case(ck, rng, idx, workdir, size):
     if g.sos_groups and accept != ['ALL'] and rng.chance(4, 5):
         accept = accept + [t for t in ('SOS1Constraint', 'SOS2Constraint') if t not in accept]
     nv, nalg, ncon = len(m.vars), len(m.cons), len(m.cons) + len(m.lcons)
+    export_names = rng.chance(1, 2)     # names not requested + cvt:writegraph: BasicProblem::item_name invents names
+    ndv = len(getattr(m, 'dvars', []))
     replay = {'seed': ck.seed, 'case': idx, 'stub': os.path.relpath(stub, VERIF), 'options': opts, 'accept': ','.join(accept),
               'RECSOLVER_QUADOBJ': qenv, 'family': g.family,
               'variant': variant, 'scheme': g.scheme,
@@ -311,8 +315,30 @@ def exec_case(ck, exe, drv, st, case):
     g, m, stub, variant, mode, col, row = (case[k] for k in ('g', 'm', 'stub', 'variant', 'mode', 'col', 'row'))
     nobj, multi, objno, opts, accept, nv, nalg, ncon, replay, idx = (case[k] for k in ('nobj', 'multi', 'objno', 'opts', 'accept', 'nv', 'nalg', 'ncon', 'replay', 'idx'))
     qenv = case['qenv']
+    ndv, export_names = case['ndv'], case['export_names']
     st.inc('family=' + g.family)
     exp = expected_sources(mode, col, row, nv, ncon, nalg, nobj, objno, multi)
+    src_kind = 'files-or-generic'
+    nonl = variant == 'nonewline' and mode in (1, 2) and row is not None
+    if nonl:
+        exp = None
+    if exp is None and export_names and not nonl and not multi and objno == 1:
+        # nothing read / requested, but the graph export asks BasicProblem for names: _x[i], _CON<i>_, _LCON<i>_, _OBJ<i>_
+        src_kind = 'item_name'
+        exp = (['_x[%d]' % (i + 1) for i in range(nv)],
+               ['_CON%d_' % (i + 1) if i < nalg else '_LCON%d_' % (i - nalg + 1) for i in range(ncon)],
+               ['_OBJ%d_' % (i + 1) for i in range(min(nobj, 1))])     # objno=1: only the first objective is delivered
+    st.inc('sources-from=' + src_kind)
+    if exp is not None:      # arms of the NameProvider / readNamesModel / itemNamesModel taken by this case
+        evs_, ecs_, eos_ = exp
+        for cond, arm in ((nobj == 0, 'no-objective'), (multi, 'multiobj'), (objno == 2, 'objno=2'), (ndv > 0, 'defined-variables'),
+                          (any(x.startswith('_svar[') for x in evs_), 'generic-_svar'), (any(x.startswith('_scon[') for x in ecs_), 'generic-_scon'),
+                          (any(x.startswith('_slogcon[') for x in ecs_), 'generic-_slogcon'), (any(x.startswith('_sobj[') for x in eos_), 'generic-_sobj'),
+                          (any(x.startswith('_LCON') for x in ecs_), 'item-_LCON'), (src_kind == 'item_name', 'item-names'),
+                          ('crlf' in variant and mode in (1, 2), 'crlf-file'), (mode == 1 and col is None and row is not None, 'mode1-row-only'),
+                          (mode == 1 and row is None and col is not None, 'mode1-col-only')):
+            if cond:
+                st.inc('arm:np:' + arm)
     st.inc('mode=%d' % mode)
     st.inc('files=' + variant)
     st.inc('scheme=' + g.scheme)
@@ -322,6 +348,17 @@ def exec_case(ck, exe, drv, st, case):
         os.remove(linkf)
     r = recsolver.run(exe, stub, options=opts, accept=accept, graph=(exp is not None), timeout=60, env={'RECSOLVER_LINKS': linkf}, quadobj=qenv)
     log = r['log']
+    if nonl:
+        # a names file whose last line is not terminated: diagnosed error, no model may be delivered
+        st.inc('class:names-file-missing-newline')
+        ans = drv.ask('np %d %s %s %d %d %d %d %d %d %d' % (mode, '-' if col is None else ('0' if col == b'' else col.hex()), row.hex() if row else '0',
+                                                           nv, ndv, ncon, nalg, nobj, objno, 1 if multi else 0))
+        delivered_any = any(e.get('ev') in ('vars', 'con') for e in log)
+        if (ans == 'error') != (not delivered_any):
+            out.append(('model:missing-newline', 'unterminated .row: Lean model says %r, real driver %s a model' % (ans, 'delivered' if delivered_any else 'did not deliver'), replay, False))
+        if delivered_any and 'missing newline' not in (r['sol'] or '') + r['err'] + r['out']:
+            out.append(('names-file-error-ignored', 'unterminated last line of .row neither diagnosed nor harmless', replay, True))
+        return out
     if r['rc'] != 0 or not any(e.get('ev') == 'end' for e in log):
         st.inc('run:rejected-or-failed')
         if r['rc'] not in (0, 1) and r['rc'] != 'timeout':
@@ -354,7 +391,8 @@ def exec_case(ck, exe, drv, st, case):
     srcs_v = list(evs)
     s1, s2 = sos_names(g)
     srcs_c = list(ecs) + s1 + s2
-    innocent = suffix_free(srcs_v) and suffix_free(srcs_c) and all(srcs_v) and all(srcs_c)
+    srcs_all = srcs_v + srcs_c + list(eos)      # derived variables take names from constraints/objectives: one namespace of roots
+    innocent = suffix_free(srcs_all) and all(srcs_all)
     st.inc('sources:' + ('suffix-free' if innocent else 'adversarial'))
     cls = 'innocent-sources' if innocent else 'adversarial-sources'
     # ---------------- (a) oracle on the delivered names
@@ -376,7 +414,7 @@ def exec_case(ck, exe, drv, st, case):
             st.inc('duplicates:%s:%s' % (kind, cls))
             rp = dict(replay)
             rp['duplicate_names'] = dup[:5]
-            rp['sources'] = {'vars': srcs_v, 'cons': srcs_c}
+            rp['sources'] = {'vars': srcs_v, 'cons': srcs_c, 'objs': list(eos)}
             pending.append(('duplicate-%s-names:%s' % (kind, cls),
                             'two delivered %ss share the name %r (source names: %s)' % (kind, dup[0], 'suffix-free' if innocent else 'not suffix-free'), rp))
     if vnames[:nv] != evs:
@@ -438,13 +476,20 @@ def exec_case(ck, exe, drv, st, case):
     # ---------------- (b) Lean recomputation
     np_line = 'np %d %s %s %d %d %d %d %d %d %d' % (
         mode, '-' if col is None else ('0' if col == b'' else col.hex()), '-' if row is None else ('0' if row == b'' else row.hex()),
-        nv, 0, ncon, nalg, nobj, objno, 1 if multi else 0)
+        nv, ndv, ncon, nalg, nobj, objno, 1 if multi else 0)
+    if src_kind == 'item_name':
+        np_line = 'inames %d %d %d %d %d' % (nv, ndv, ncon, nalg, nobj)
     ans = drv.ask(np_line)
     if not ans.startswith('names '):
         out.append(('model:nameprovider', 'Lean NameProvider model says %r but the real driver delivered names' % ans, dict(replay, op=np_line), False))
         return out + [(sg + ':unclassified', w, rp, True) for sg, w, rp in pending]
     mm = re.match(r'names V(.*) C(.*) O(.*)\Z', ans)
     lv, lc, lo = ([unhx(h) for h in mm.group(k).split()] for k in (1, 2, 3))
+    if src_kind == 'item_name':
+        lo = lo[:len(eos)]
+    lv = lv[:nv]          # FlatConverter keeps the names of the NL variables only (defined-variable names are cut off)
+    if ndv:
+        st.inc('arm:names-with-defined-variables')
     if (lv, lc, lo) != (evs, ecs, eos):
         out.append(('model:nameprovider-vs-reference', 'Lean NameProvider model %r differs from the documented reference %r' % ((lv, lc, lo), (evs, ecs, eos)), dict(replay, op=np_line), False))
     lines = ['reset']
@@ -468,6 +513,7 @@ def exec_case(ck, exe, drv, st, case):
         out.append(('model:bad-op', 'the Lean driver cannot interpret %r' % (bad[0],), replay, False))
         return out + [(sg + ':unclassified', w, rp, True) for sg, w, rp in pending]
     runinfo = dict(kv.split('=') for kv in res[-1].split()[1:])
+    count_arms(st, runinfo)
     q = ['var %d' % G.cell('dest_vars()', i) for i in range(len(vnames))]
     q += ['var %d' % G.cell('dest_objs()', i) for i in range(len(objs))]
     conkeys = sorted(G.con_final)
@@ -488,10 +534,9 @@ def exec_case(ck, exe, drv, st, case):
                     dict(replay, first=diffs[:5]), False))
     dinfo = [dict(kv.split('=') for kv in x.split()) for x in a[len(q):]]
     leaves = all(x.get('belowfree') == '1' and x.get('uncounted') == '1' for x in dinfo)
-    sfv = drv.ask('sf ' + ' '.join(hx(n) for n in srcs_v))
-    sfc = drv.ask('sf ' + ' '.join(hx(n) for n in srcs_c))
-    if (sfv == '1' and sfc == '1') != (suffix_free(srcs_v) and suffix_free(srcs_c)):
-        out.append(('model:suffixfree-differs', 'Lean suffixFreeB and the python reference disagree on %r / %r' % (srcs_v, srcs_c), replay, False))
+    sfv = sfc = drv.ask('sf ' + ' '.join(hx(n) for n in srcs_all))
+    if (sfv == '1') != suffix_free(srcs_all):
+        out.append(('model:suffixfree-differs', 'Lean suffixFreeB and the python reference disagree on %r' % (srcs_all,), replay, False))
     st.inc('hyp:topo=%d' % (runinfo.get('topo') == '1'))
     if runinfo.get('topo') == '1' and runinfo.get('wellfed') != '1':
         out.append(('model:topo-implies-wellfed-contradicted', 'topoB holds but wellFed does not on this run (C19_wellFed_of_topological)', replay, False))
@@ -546,6 +591,170 @@ def exec_case(ck, exe, drv, st, case):
     return out
 
 
+ARM_NAMES = ['copy:stores-first-copy', 'copy:stores-counted-copy', 'copy:target-already-named', 'distr:stores-first-copy',
+             'distr:stores-counted-copy', 'distr:target-already-named', 'sgive:stores', 'sgive:target-already-named']
+
+
+def count_arms(st, runinfo):
+    for nm, v in zip(ARM_NAMES, (runinfo.get('arms') or '').split(',')):
+        if v.isdigit():
+            st.inc('arm:' + nm, int(v))
+
+
+# ------------------------------------------------------------------ direct link-level stage (harness/h_links.cc)
+def link_scenario(rng):
+    """random node sizes, initial names and a random sequence of AddEntry calls (incl. consecutive/extendable ones,
+    interleavings, reads of unnamed cells, writes into named cells)"""
+    nn = rng.rint(6, 8)
+    sizes = [rng.rint(1, 4), rng.rint(1, 4), rng.rint(0, 2), rng.rint(3, 8), rng.rint(2, 5), rng.rint(2, 5)] + [rng.rint(1, 6) for _ in range(nn - 6)]
+    base = ['x', 'c', 'o']
+    adv = rng.chance(1, 4)
+    src = []
+    for k in range(3):
+        cnt = max(0, sizes[k] + rng.choice([0, 0, 0, -1, 1]))
+        names = ['%s%d' % (base[k], i + 1) for i in range(cnt)]
+        if adv and cnt > 1 and rng.chance(1, 2):
+            names[-1] = names[0] + rng.choice(['_2_', '_slk_', '_3__2_'])
+        src.append(names)
+    presets = []
+    for _ in range(rng.below(3)):
+        n = rng.rint(3, nn - 1)
+        cand = (n, rng.below(sizes[n]), rng.choice(['SOS1_1_', 'SOS2_-1_', 'p', 'x1', 'c1_2_']))
+        if not any(pn == cand[0] and pi == cand[1] for pn, pi, _ in presets):
+            presets.append(cand)
+    cmds = []
+    last = None
+    for _ in range(rng.rint(3, 14)):
+        k = rng.below(12)
+        if last is not None and rng.chance(1, 3):
+            # try to continue the previous entry (extendable ranges)
+            kind = last[0]
+            if kind == 'copy':
+                _, l, sn, sb, dn, db, ln = last
+                ln2 = rng.rint(1, 2)
+                if sb + ln + ln2 <= sizes[sn] and db + ln + ln2 <= sizes[dn]:
+                    last = ('copy', l, sn, sb + ln, dn, db + ln, ln2); cmds.append(last); continue
+            elif kind == 'o2m':
+                _, sn, si, dn, db, dl = last
+                if db + dl + 1 <= sizes[dn]:
+                    last = ('o2m', sn, si, dn, db + dl, 1); cmds.append(last); continue
+            elif kind == 'm2o':
+                _, sn, sb, sl, dn, di = last
+                if sb + sl + 1 <= sizes[sn]:
+                    last = ('m2o', sn, sb + sl, 1, dn, di); cmds.append(last); continue
+        sn = rng.below(nn)
+        dn = rng.rint(3, nn - 1)
+        if sizes[sn] == 0:
+            continue
+        if k < 4:
+            ln = rng.rint(1, min(2, sizes[sn], sizes[dn]))
+            last = ('copy', rng.below(2), sn, rng.below(sizes[sn] - ln + 1), dn, rng.below(sizes[dn] - ln + 1), ln)
+        elif k < 8:
+            dl = rng.rint(1, min(3, sizes[dn]))
+            last = ('o2m', sn, rng.below(sizes[sn]), dn, rng.below(sizes[dn] - dl + 1), dl)
+        elif k == 8:
+            sl = rng.rint(1, min(3, sizes[sn]))
+            last = ('m2o', sn, rng.below(sizes[sn] - sl + 1), sl, dn, rng.below(sizes[dn]))
+        elif k == 9:
+            sl = rng.rint(1, min(2, sizes[sn])); dl = rng.rint(1, min(2, sizes[dn]))
+            last = ('m2m', sn, rng.below(sizes[sn] - sl + 1), sl, dn, rng.below(sizes[dn] - dl + 1), dl)
+        else:
+            last = ('slack', rng.below(sizes[4]), rng.below(sizes[5]), rng.below(sizes[3]))
+        cmds.append(last)
+    return sizes, src, presets, cmds
+
+
+def stage_links(ck, drv, st, rng, n, cov=False):
+    fl = ['-O0', '-g', '--coverage'] if cov else ['-O1', '-g', '-fsanitize=address,undefined', '-fno-sanitize-recover=all']
+    h = ck.objects([os.path.join(VERIF, 'harness', 'h_links.cc')], flags=fl, tag='c19')
+    exe = ck.link('h_links', h + ck.libmp_objects(flags=tuple(fl)), flags=['--coverage'] if cov else ['-fsanitize=address,undefined'])
+    ck.log('h_links built')
+    scen = [link_scenario(rng) for _ in range(n)]
+    inp = []
+    for sizes, src, presets, cmds in scen:
+        inp.append('nodes ' + ' '.join(map(str, sizes)))
+        for k in range(3):
+            inp.append('src %d %s' % (k, ' '.join(hx(x) for x in src[k])))
+        for nnode, i, nm in presets:
+            inp.append('preset %d %d %s' % (nnode, i, hx(nm)))
+        for c in cmds:
+            inp.append(' '.join(map(str, c)))
+        inp.append('run')
+    p = subprocess.run([exe], input='\n'.join(inp) + '\n', capture_output=True, text=True, env=dict(os.environ, ASAN_OPTIONS='detect_leaks=0'), timeout=900)
+    outl = [l for l in p.stdout.split('\n') if l.startswith('cells')]
+    if p.returncode != 0 or len(outl) != len(scen):
+        ck.add_violation('links:harness-died', 'harness/h_links died (rc=%r) after %d of %d scenarios: %s' % (p.returncode, len(outl), len(scen), p.stderr[-400:]),
+                         {'scenario': scen[len(outl)] if len(outl) < len(scen) else None}, found_input=True)
+    LINKID = {'o2m': 2, 'm2o': 3, 'm2m': 4, 'slack': 5}
+    for (sizes, src, presets, cmds), real in zip(scen, outl):
+        st.inc('links:scenarios')
+        bases = [sum(sizes[:i]) for i in range(len(sizes))]
+        L = ['reset', 'bases ' + ' '.join(map(str, bases))]
+        roots = []
+        for k in range(3):
+            for i, nm in enumerate(src[k][:sizes[k]]):
+                L.append('src %d %s' % (bases[k] + i, hx(nm)))
+                roots.append(nm)
+        for nnode, i, nm in presets:
+            L.append('src %d %s' % (bases[nnode] + i, hx(nm)))
+            roots.append(nm)
+        # a later preset of the same cell wins in the harness as well (plain assignment into an empty VCString keeps the first!)
+        for c in cmds:
+            st.inc('links:' + c[0])
+            if c[0] == 'copy':
+                L.append('acopy %d %d %d %d %d %d' % c[1:])
+            elif c[0] == 'o2m':
+                L.append('am2m 2 %d %d 1 %d %d %d' % c[1:])
+            elif c[0] == 'm2o':
+                L.append('am2m 3 %d %d %d %d %d 1' % c[1:])
+            elif c[0] == 'm2m':
+                L.append('am2m 4 %d %d %d %d %d %d' % c[1:])
+            else:
+                L.append('aslack 5 4 %d 5 %d 3 %d' % c[1:])
+        L += ['sched', 'run']
+        res = drv.many(L)
+        if any(a == 'bad-op' for a in res):
+            ck.add_violation('model:bad-op', 'links stage: Lean driver rejected %r' % ([l for l, a in zip(L, res) if a == 'bad-op'][:2],), {'lines': L}, found_input=False)
+            continue
+        runinfo = dict(kv.split('=') for kv in res[-1].split()[1:])
+        count_arms(st, runinfo)
+        st.inc('links:sched-entries', int(res[-2].split('=')[1]))
+        st.inc('links:added-entries', len(cmds))
+        ncell = sum(sizes)
+        q = ['con %d' % c for c in range(ncell)] + ['var %d' % (bases[3] + i) for i in range(sizes[3])]
+        got = drv.many(q)
+        cells_part, tv_part = real.split(' | tvars')
+        realcells = []
+        for tok in cells_part.split()[1:]:
+            node, vals = tok.split(':')
+            realcells += [v for v in vals.split(',')] if vals else []
+        realtv = [v for v in tv_part.strip().split(',')] if tv_part.strip() else []
+        st.inc('links:cells', len(q))
+        if realcells + realtv != got:
+            diffs = [(i, a, b) for i, (a, b) in enumerate(zip(realcells + realtv, got)) if a != b]
+            ck.add_violation('model:link-level-names-differ',
+                             'direct link-level run: real value-presolver names differ from the Lean schedule/presolve model in %d cells (first: cell %r real %r model %r)' % (
+                                 len(diffs), diffs[0][0] if diffs else '?', unhx(diffs[0][1]) if diffs else '?', unhx(diffs[0][2]) if diffs else '?'),
+                             {'sizes': sizes, 'src': src, 'presets': presets, 'cmds': cmds, 'real': real, 'model': got, 'harness': 'harness/h_links.cc'}, found_input=False)
+            continue
+        # theorem consequences on the real names of the target variables (node 3)
+        D = [bases[3] + i for i in range(sizes[3])]
+        dinfo = dict(kv.split('=') for kv in drv.ask('dvars ' + ' '.join(map(str, D))).split())
+        sf = drv.ask('sf ' + ' '.join(hx(x) for x in roots)) == '1' and all(roots)
+        hyp = (runinfo.get('wellfed') == '1' and runinfo.get('sib') == '1' and runinfo.get('closed') == '1' and runinfo.get('noclash') == '1'
+               and dinfo.get('belowfree') == '1' and dinfo.get('uncounted') == '1' and sf)
+        st.inc('links:hyps-hold=%d' % hyp)
+        names = [unhx(v) for v in realtv]
+        named = [x for x in names if x]
+        if hyp and len(set(named)) != len(named):
+            ck.add_violation('model:theorem-contradicted', 'link-level scenario: all hypotheses of C19_unique_vars_partial hold but target variables share a name: %r' % (names,),
+                             {'sizes': sizes, 'src': src, 'presets': presets, 'cmds': cmds}, found_input=False)
+        if runinfo.get('topo') == '1' and dinfo.get('covered') == '1' and '' in names:
+            ck.add_violation('model:theorem-contradicted', 'link-level scenario: topoB and coveredB hold but a target variable is unnamed: %r' % (names,),
+                             {'sizes': sizes, 'src': src, 'presets': presets, 'cmds': cmds}, found_input=False)
+    return len(scen)
+
+
 # ------------------------------------------------------------------ NameProvider stage
 def nameprovider_cases(rng, n):
     cases = [b'x\ny\nz\n', b'x\r\ny\r\n', b'\ny\n', b'x\n\nz\n', b'x\ny', b'', None, b'\r\n', b'a\rb\n', b'q\na\rb\n',
@@ -562,11 +771,11 @@ def nameprovider_cases(rng, n):
     return cases
 
 
-def stage_nameprovider(ck, drv, st, rng, workdir, n):
-    fl = ['-O1', '-g', '-fsanitize=address,undefined', '-fno-sanitize-recover=all']
-    objs = ck.objects([os.path.join(REPO, s) for s in ['src/nl-reader.cc', 'src/os.cc', 'src/posix.cc', 'src/format.cc']], flags=fl, tag='mpasan')
+def stage_nameprovider(ck, drv, st, rng, workdir, n, cov=False):
+    fl = ['-O0', '-g', '--coverage'] if cov else ['-O1', '-g', '-fsanitize=address,undefined', '-fno-sanitize-recover=all']
+    objs = ck.objects([os.path.join(REPO, s) for s in ['src/nl-reader.cc', 'src/os.cc', 'src/posix.cc', 'src/format.cc']], flags=fl, tag='mpcov' if cov else 'mpasan')
     h = ck.objects([os.path.join(VERIF, 'harness', 'h_names.cc')], flags=fl, tag='c19')
-    exe = ck.link('h_names', h + objs, flags=['-fsanitize=address,undefined', '-Wl,--wrap=mmap'])
+    exe = ck.link('h_names', h + objs, flags=(['--coverage'] if cov else ['-fsanitize=address,undefined']) + ['-Wl,--wrap=mmap'])
     ck.log('h_names built')
     cases = nameprovider_cases(rng, n)
     inp = ''.join(('-' if c is None else ('0' if c == b'' else c.hex())) + '\n' for c in cases)
@@ -655,7 +864,20 @@ def stage_counterexamples(ck, exe, st, workdir):
 
 
 # ------------------------------------------------------------------ main
+def build_cov_recsolver(ck):
+    fl = ('-O0', '-g', '--coverage')
+    srcs = [os.path.join(recsolver.RDIR, f) for f in ['recmain.cc', 'recmodelmgr.cc', 'recmodelapi.cc', 'recbackend.cc']]
+    objs = ck.objects(srcs, flags=fl, extra_inc=[recsolver.RDIR], tag='rec')
+    return ck.link('recsolver_cov', objs + ck.libmp_objects(flags=fl), flags=['--coverage'])
+
+
 def run(ck):
+    cov = os.environ.get('VERIF_COVERAGE') == '1'
+    if cov:
+        import common, c19_cov
+        common.BUILD = os.path.join(VERIF, 'build', 'cov')      # separate build dir: objects carry .gcno/.gcda
+        os.makedirs(common.BUILD, exist_ok=True)
+        c19_cov.clean(common.BUILD)
     st = Stats()
     proof_ok, failing = ck.proof_stage('MpVerif.C19.Props', 'MpVerif/C19/Props.lean', 'C19_', ['MpVerif/C19/*.lean'], expect_min=N_THEOREMS)
     ck.log('proof stage: ok=%s failing=%s' % (proof_ok, failing[:10]))
@@ -664,7 +886,7 @@ def run(ck):
         if bad:
             failing += ['leanchecker rejected %s' % b for b in bad]
             proof_ok = False
-    exe = recsolver.build(ck)
+    exe = build_cov_recsolver(ck) if cov else recsolver.build(ck)
     ck.log('recsolver built')
     drv = Drv(ck.driver('drv_c19'))
     ck.log('lean driver built')
@@ -672,8 +894,10 @@ def run(ck):
     shutil.rmtree(workdir, ignore_errors=True)
     os.makedirs(workdir)
     rng = nlgen.Rng(ck.seed * 7919 + 19)
-    n_np = stage_nameprovider(ck, drv, st, rng, workdir, 150 if ck.tier == 'quick' else 1500)
+    n_np = stage_nameprovider(ck, drv, st, rng, workdir, 150 if ck.tier == 'quick' else 1500, cov=cov)
     ck.log('NameProvider stage: %d files' % n_np)
+    n_lk = stage_links(ck, drv, st, rng, 400 if ck.tier == 'quick' else 4000, cov=cov)
+    ck.log('link-level stage: %d scenarios' % n_lk)
     stage_counterexamples(ck, exe, st, workdir)
     ncases = 1200 if ck.tier == 'quick' else 12000
     found = {}
@@ -694,6 +918,8 @@ def run(ck):
                 ck.log('case %d: %s: %s' % (idx, sig, what[:200]))
             st.inc('finding:' + sig)
     drv.close()
+    if cov:
+        c19_cov.report(ck, common.BUILD, dict(st.d))
     for sig, (what, replay, fi) in found.items():
         ck.add_violation(sig, what, replay, found_input=fi)
     if not proof_ok:
@@ -711,6 +937,15 @@ def run(ck):
                                 'nameprovider_files': n_np, 'lean_driver_ops': drv.n}
     ck.cov['unique_theorem_applicability'] = {'runs_where_all_hypotheses_hold': d.get('theorem-applies', 0),
                                               'runs_where_some_hypothesis_fails': d.get('theorem-not-applicable', 0)}
+    try:
+        cj = json.load(open(os.path.join(VERIF, 'design_notes', 'coverage', 'C19.json')))
+        ck.cov['anchor_line_cov'] = cj['anchor_line_cov']
+        ck.cov['anchor_branch_cov'] = cj['anchor_branch_cov']
+        ck.cov['mechanism_line_cov'] = cj['mechanism_line_cov']
+        ck.cov['mechanism_branch_cov'] = cj['mechanism_branch_cov']
+        ck.cov['coverage_note'] = 'gcov of anchors.files under the quick-tier stream, last VERIF_COVERAGE=1 run (seed %s); see design_notes/coverage/C19.md' % cj.get('seed')
+    except Exception:
+        pass
     ck.level = 'proof'
     ck.notes.append('partial: uniqueness and non-emptiness hold only under decidable hypotheses evaluated per run; the full-strength property is refuted by three proved counterexamples replayed on the real driver (open known findings)')
     ck.assumptions += [
